@@ -114,9 +114,18 @@ func e2eRefusals(c *e2eCtx) error {
 		{"missing-config-track", []string{"track"}, func(s *scenario, r *rand.Rand) bool { os.Remove(filepath.Join(s.dir, "goat.yaml")); return true }, false},
 		{"missing-config-patch", []string{"patch"}, func(s *scenario, r *rand.Rand) bool { os.Remove(filepath.Join(s.dir, "goat.yaml")); return true }, false},
 		{"missing-config-clean", []string{"clean"}, func(s *scenario, r *rand.Rand) bool { os.Remove(filepath.Join(s.dir, "goat.yaml")); return true }, false},
-		{"invalid-granularity", []string{"track"}, func(s *scenario, r *rand.Rand) bool { writeCfg(s, func(c *proj.Config) { c.Granularity = "bogus" }); return true }, false},
-		{"invalid-precision", []string{"track"}, func(s *scenario, r *rand.Rand) bool { writeCfg(s, func(c *proj.Config) { c.Precision = 7 }); return true }, false},
-		{"invalid-datatype", []string{"patch"}, func(s *scenario, r *rand.Rand) bool { writeCfg(s, func(c *proj.Config) { c.DataType = "float" }); return true }, false},
+		{"invalid-granularity", []string{"track"}, func(s *scenario, r *rand.Rand) bool {
+			writeCfg(s, func(c *proj.Config) { c.Granularity = "bogus" })
+			return true
+		}, false},
+		{"invalid-precision", []string{"track"}, func(s *scenario, r *rand.Rand) bool {
+			writeCfg(s, func(c *proj.Config) { c.Precision = 7 })
+			return true
+		}, false},
+		{"invalid-datatype", []string{"patch"}, func(s *scenario, r *rand.Rand) bool {
+			writeCfg(s, func(c *proj.Config) { c.DataType = "float" })
+			return true
+		}, false},
 		{"invalid-printer-mode", []string{"clean"}, func(s *scenario, r *rand.Rand) bool {
 			writeCfg(s, func(c *proj.Config) { c.PrinterModes = []string{"useSpaces", "wide"} })
 			return true
@@ -345,7 +354,7 @@ func e2eRefusals(c *e2eCtx) error {
 			if err != nil || ans != want || obs != want {
 				c.mu.Lock()
 				c.res.Violations = append(c.res.Violations, e2eViolation{Prop: "C12", Kind: "correspondence", Found: false,
-					What: fmt.Sprintf("%s: the Lean plan answers %q, expected %q, the real command was observed as %q", k.name, ans, want, obs),
+					What:   fmt.Sprintf("%s: the Lean plan answers %q, expected %q, the real command was observed as %q", k.name, ans, want, obs),
 					Replay: map[string]any{"broken": "correspondence Cmd.plan", "scenario_kind": k.name, "flags": bits, "stderr": tail(run.Stderr, 800)}})
 				c.mu.Unlock()
 			}
